@@ -442,3 +442,15 @@ func parseModel(out string) map[string]string {
 	}
 	return m
 }
+
+// SolveQuick: satisfiability of the assertions with one fast solver and a 1 s budget.
+func (r *Registry) SolveQuick(q *Query, dir string) string {
+	script := r.Script(q)
+	file := filepath.Join(dir, sanitize(q.Name)+".smt2")
+	if err := os.WriteFile(file, []byte(script), 0o644); err != nil {
+		return "error"
+	}
+	res := runOne(context.Background(), solvers[0], file, 1)
+	os.Remove(file)
+	return res.Status
+}
